@@ -226,9 +226,12 @@ class Run:
                 self.flags['op_on_pending_id'] += 1
                 self.flags['op_on_pending_id:' + name] += 1
         mark = len(self.log)
+        self._toggled_at = None
         getattr(self, 'op_' + name)(*op[1:])
         if 'lifecycle' in self.checks and name != 'toggle':
-            self.check_segment(self.log[mark:], name)
+            # a degraded op may have enabled dispatching first: that part of the log was judged by op_toggle
+            start = self._toggled_at if self._toggled_at is not None else mark
+            self.check_segment(self.log[start:], name)
 
     def noop(self, why=None):
         self.noops += 1
@@ -277,6 +280,8 @@ class Run:
                 self.used_explicit_int = True
             self.flags['explicit_id'] += 1
         self.know(got)
+        if comps and getattr(self, 'cleared_once', False):
+            self.flags['reuse_after_clear'] += 1
         if comps:
             row = self.attached.setdefault(got, {})
             for c in comps:
@@ -300,6 +305,8 @@ class Run:
         group = []
         if old is not None:
             self.flags['replace'] += 1
+            if hasattr(type(old), '__events__'):
+                self.flags['handler_detached_by_replace'] += 1
             self.detached.append(old)
             if self.maps(old, 'on_remove'):
                 group.append(('on_remove', old, e))
@@ -389,6 +396,8 @@ class Run:
         self.call_op(self.world.delete_entity, e, immediate=True)
         row = self.attached.pop(e)
         self.flags['delete_now'] += 1
+        if any(hasattr(type(c), '__events__') for c in row.values()):
+            self.flags['handler_detached_by_delete_now'] += 1
         if self.is_pending(e):
             self.flags['pending_row_vanished_by_delete_now'] += 1
         self.detached.extend(row.values())
@@ -437,12 +446,17 @@ class Run:
 
     def op_clear(self):
         if 'lifecycle' in self.checks and not self.enabled:
-            return self.noop('clear_while_disabled')
+            # clear() documents that pending events are dropped, C02 that postponed callbacks are not lost:
+            # not arbitrated - dispatching is re-enabled (and the release checked) before clearing
+            self.excluded['clear_while_disabled_enabled_first'] += 1
+            self.op_toggle()
         self.call_op(self.world.clear)
         group = []
         for e, row in self.attached.items():
             group.extend(('on_remove', c, e) for c in row.values() if self.maps(c, 'on_remove'))
             self.detached.extend(row.values())
+            if any(hasattr(type(c), '__events__') for c in row.values()):
+                self.flags['handler_detached_by_clear'] += 1
         self.attached = {}
         self.pending = []
         self.bad_pending = []
@@ -478,10 +492,13 @@ class Run:
         if 'lifecycle' in self.checks:
             self.check_release(self.log[mark:])
         self.queue = []
+        self._toggled_at = len(self.log)
 
     def op_probe(self):
         if not self.enabled:
-            return self.noop('probe_while_disabled')
+            # deferred delivery of ordinary events is C04's subject: degrade to the enabling assignment
+            self.excluded['probe_while_disabled_enabled_instead'] += 1
+            return self.op_toggle()
         token = object()
         mark = len(self.log)
         self.call_op(self.world.dispatch, 'probe', token)
